@@ -141,6 +141,7 @@ def ev_expr(e, env, conf):
     if k == 'or': return bool(ev_expr(e[1], env, conf)) or bool(ev_expr(e[2], env, conf))
     if k == 'list': return list(e[1])
     if k == 'evname': return env['_evname']
+    if k == 'evis': return env.get('_evname') == e[1]
     raise ValueError(e)
 
 
@@ -158,12 +159,15 @@ def rn_expr(e, dm):
     if k == 'or': return ('%s or %s' if dm != 'promela' else '%s || %s') % (rn_expr(e[1], dm), rn_expr(e[2], dm))    # deliberately without parentheses around the whole
     if k == 'list': return ('{%s}' if dm == 'lua' else '[%s]') % ','.join(str(x) for x in e[1])
     if k == 'evname': return '_event.name'
+    if k == 'evis':        # lua only: true while the event bound to _event (the last one dequeued, matched or not) has this name
+        assert dm == 'lua', 'evis is a lua-only condition'
+        return "_event ~= nil and _event.name == '%s'" % e[1]
     raise ValueError(e)
 
 
 def expr_uses_data(e):
     if e is None: return False
-    if e[0] in ('var', 'const', 'add', 'sub', 'eq', 'lt', 'not', 'true', 'or'):
+    if e[0] in ('var', 'const', 'add', 'sub', 'eq', 'lt', 'not', 'true', 'or', 'evis'):
         if e[0] in ('in',): return False
         if e[0] == 'not': return True   # the null datamodel only knows In()
         return True
@@ -686,7 +690,7 @@ def gen_late_chart(seed, logexpr=True):
     return ch, hist
 
 
-def decorate(ch, rng, errors=True):
+def decorate(ch, rng, errors=True, evcond=False):
     """Second pass with its own random stream (the base charts stay what they were): content kinds and event names beyond the base
     generator - <foreach> over an integer array, <script> (lua), _event.name, nested <if>/<elseif>/<else>, transitions on error.* and
     done.state.<id> events."""
@@ -749,6 +753,15 @@ def decorate(ch, rng, errors=True):
         targets = [rng.choice(proper).id] if has_data and rng.random() < 0.5 else []
         content = [('log', L('E'), rex())] + ([('logev', L('V'))] if rng.random() < 0.5 else [])
         s.trans.insert(rng.randint(0, len(s.trans)), Tr(s, evs, None, targets, False, content))
+    if evcond and has_data:
+        # an eventless transition whose condition looks at _event: it becomes enabled by an event that itself triggers nothing (App. D: the
+        # eventless transitions are examined again after every event, before anything else is dequeued). Forward targets only (no loops).
+        for _ in range(rng.choice([0, 1, 1, 2])):
+            s = rng.choice(srcs) if srcs else None
+            if s is None: break
+            fw = [q for q in proper if q.order > s.order and not is_descendant(q, s) and not is_descendant(s, q)]
+            if not fw: continue
+            s.trans.insert(rng.randint(0, len(s.trans)), Tr(s, None, ('evis', rng.choice(['i1', 'e2', 'i1.a', 'e3', 'zz', 'error.execution'])), [rng.choice(fw).id], False, [('log', L('C'), rex())]))
     ch.reindex()
 
 
@@ -779,11 +792,11 @@ def long_event_names(ch, hist, tail=70):
     return [rn(e) for e in hist]
 
 
-def gen_chart(seed, rich=False, **kw):
+def gen_chart(seed, rich=False, evcond=False, **kw):
     rng = random.Random(seed)
     ch = Gen(rng, **kw).chart()
     hist = [rng.choice(EVENTS) for _ in range(rng.randint(1, 6))]
-    if rich: decorate(ch, random.Random(seed * 7919 + 13), errors=kw.get('errors', True))
+    if rich: decorate(ch, random.Random(seed * 7919 + 13), errors=kw.get('errors', True), evcond=evcond)
     return ch, hist
 
 
